@@ -115,15 +115,35 @@ def full_vectors(n=6, seed=0):
     ct_o <<= a.encryption(pt, key)
     dec_o = pyrtl.Output(128, 'dec')
     dec_o <<= a.decryption(pt, key)
+    # the same AES object used for further circuits with their OWN data and key inputs (an encryptor and a
+    # decryptor under another key, built after the first pair; and the other way round on a second object)
+    ct2, key2 = pyrtl.Input(128, 'ct2'), pyrtl.Input(128, 'key2')
+    dec2_o = pyrtl.Output(128, 'dec2')
+    dec2_o <<= a.decryption(ct2, key2)
+    enc2_o = pyrtl.Output(128, 'enc2')
+    enc2_o <<= a.encryption(ct2, key2)
+    b = aes.AES()
+    dec3_o = pyrtl.Output(128, 'dec3')
+    dec3_o <<= b.decryption(pt, key)
+    enc3_o = pyrtl.Output(128, 'enc3')
+    enc3_o <<= b.encryption(ct2, key2)
     sim = pyrtl.Simulation()
-    for p, k in vecs:
-        sim.step({'pt': p, 'key': k})
+    for i, (p, k) in enumerate(vecs):
+        p2, k2 = vecs[(i + 1) % len(vecs)][0] ^ 0x5a, vecs[(i + 2) % len(vecs)][1] ^ (1 << 77)
+        sim.step({'pt': p, 'key': k, 'ct2': p2, 'key2': k2})
         if sim.inspect('ct') != F.cipher(p, k):
             return dict(failed=True, observed=dict(what='encryption', pt=hex(p), key=hex(k),
                                                    ct=hex(sim.inspect('ct'))), expected=hex(F.cipher(p, k)))
         if sim.inspect('dec') != F.inv_cipher(p, k):
             return dict(failed=True, observed=dict(what='decryption', ct=hex(p), key=hex(k),
                                                    pt=hex(sim.inspect('dec'))), expected=hex(F.inv_cipher(p, k)))
+        for nm, exp, what in (('dec2', F.inv_cipher(p2, k2), 'second decryptor of one AES object, other key'),
+                              ('enc2', F.cipher(p2, k2), 'second encryptor of one AES object, other key'),
+                              ('dec3', F.inv_cipher(p, k), 'decryptor built before an encryptor'),
+                              ('enc3', F.cipher(p2, k2), 'encryptor built after a decryptor, other key')):
+            if sim.inspect(nm) != exp:
+                return dict(failed=True, observed=dict(what=what, data=hex(p2), key=hex(k2), out=hex(sim.inspect(nm))),
+                            expected=hex(exp))
     # state machines
     for which in ('enc', 'dec'):
         pyrtl.reset_working_block()
